@@ -143,6 +143,21 @@ CHECKS = [
         "non-polynomial user terms are compared on the same points without the determining-set argument. " + _MODES,
     },
     {
+        "property_id": "C11",
+        "category": "exploration",
+        "technique": "exhaustive enumeration of all programs of a depth-bounded expression grammar, evaluated through every route against a sympy-free evaluator with forward-mode dual numbers",
+        "text": "ALL expressions of a grammar (10 atoms incl. constants, array constants and indexed variables; 20 unary and 8 binary "
+        "operators incl. special functions, heaviside, powers, user functions) up to depth 2 (quick: 4045 programs, 952 shape "
+        "classes) / depth 3 (thorough: 67977 programs) are evaluated through ScalarExpression calls, the numpy function, the numba "
+        "function (interpreted source for all, really compiled once per shape class), single_arg, array arguments, symbolic "
+        "differentiate / derivatives, tensor expressions, field construction from expressions on five grid types, aliases and "
+        "explicit symbols; the oracle is Python eval of the same text over numbers that carry forward-mode partial derivatives and a "
+        "running rounding-error bound and never touches sympy.",
+        "note": "Values are fixed generic and special points per arity (transcendental functions admit no finite determining set); "
+        "ill-conditioned points are skipped and counted; loud refusals (uncompilable erf, opaque derivatives) are counted. Two "
+        "sympy.simplify families are listed known findings. " + _MODES,
+    },
+    {
         "property_id": "C12",
         "category": "exploration",
         "technique": "bounded-exhaustive enumeration of grid configurations x full point lattices against closed-form geometry",
